@@ -364,6 +364,13 @@ CORPUS = [
  ('Struct("x"/IfThenElse(this._building, Byte, Int16ub))', dict(x=1), {}),
  ('Struct("x"/If(this._parsing, Byte), "y"/If(this._building, Byte), "z"/If(this._sizing, Byte))', dict(x=1, y=2, z=3), {}),
  ('Pointer(2, Byte)', 7, {}),
+ ('RepeatUntil(obj_.twice == 0, Struct("n"/Byte, "twice"/Rebuild(Byte, this.n * 2)))', [dict(n=1, twice=0), dict(n=0, twice=0)], {}),
+ ('RepeatUntil(obj_.d == 7, Struct("n"/Byte, "d"/Default(Byte, 7)))', [dict(n=1, d=None), dict(n=2, d=7)], {}),
+ ('RepeatUntil(obj_ == 0, Rebuild(Byte, 5))', [0], {}),
+ ('Struct("a"/Byte, "last"/Pointer(-1, Byte), "b"/Byte, "probe"/Bytes(this.last))', dict(a=16, last=2, b=32, probe=b'AB'), {}),
+ ('Struct("off"/Int8sb, "p"/Pointer(this.off, Byte), "t"/Tell, "r"/Bytes(3))', dict(off=-2, p=9, r=b'xyz'), {}),
+ ('Struct("off"/Int8sb, "p"/Pointer(this.off, Byte), "t"/Tell, "r"/Bytes(3))', dict(off=2, p=9, r=b'xyz'), {}),
+ ('Sequence(Pointer(-2, Int16ub), Byte, Tell, Bytes(2))', [513, 7, None, b'\x02\x01'], {}),
  # the direction flags, read at the level of every composite that makes its own scope and through the wrappers around it
  ('FocusedSeq("c", "n"/Const(b"\\x01"), "c"/Computed(this._parsing))', None, {}),
  ('FocusedSeq("c", "n"/Const(b"\\x01"), "c"/Computed(this._building))', None, {}),
@@ -428,7 +435,11 @@ def run(tier, seed):
                       ('Sequence(Union("b", Const(b"A"), Const(b"A"), "a"/Int16ub, "b"/Byte), GreedyBytes)', b'ABCD'),
                       ('Struct("u"/Union(2, Const(b"M"), "tag"/Byte, "body"/Int32ub, "half"/Int16ub), "after"/Tell)', b'MUVWxyz'),
                       ('Struct("u"/Union("tag", Const(b"M"), "tag"/Byte, "body"/Int32ub), "after"/Tell)', b'MUVWxyz'),
-                      ('Struct("u"/Union(None, Const(b"M"), "tag"/Byte, "body"/Int32ub), "after"/Tell)', b'MUVWxyz')]:
+                      ('Struct("u"/Union(None, Const(b"M"), "tag"/Byte, "body"/Int32ub), "after"/Tell)', b'MUVWxyz'),
+                      ('Struct("a"/Byte, "last"/Pointer(-1, Byte), "b"/Byte, "probe"/Bytes(this.last))', b'\x10\x20AB\x02'),
+                      ('Struct("off"/Int8sb, "p"/Pointer(this.off, Byte), "t"/Tell, "r"/GreedyBytes)', b'\xfe\x01\x02\x03'),
+                      ('Struct("off"/Int8sb, "p"/Pointer(this.off, Int16ub), "t"/Tell, "r"/GreedyBytes)', b'\xfd\x01\x02\x03\x04'),
+                      ('Sequence(Pointer(-3, Byte), Pointer(-1, Byte), Byte, Tell)', b'\x01\x02\x03\x04')]:
         c, cc, why = compiled(src)
         if cc is None:
             continue
